@@ -968,7 +968,8 @@ class ArgumentParser(ParserDeprecations, ActionsContainer, ArgumentLinking, argp
     def _get_default_config_files(self) -> List[Tuple[Optional[str], Path]]:
         default_config_files = []
 
-        for key, parser in parent_parsers.get():
+        # only the immediate parent: what its ancestors' files give for this parser is already part of the parent's settings
+        for key, parser in parent_parsers.get()[-1:]:
             for pattern in parser.default_config_files:
                 files = sorted(glob.glob(os.path.expanduser(pattern)))
                 default_config_files += [(key, v) for v in files]
